@@ -71,6 +71,14 @@ func loopConfigs(thorough bool, faults bool) []*loop.Config {
 		add(false, "pending-transfer/head=100,total>kept", o, fat, []loop.Seed{{1: "in_transfer", 2: ""}, {1: ""}})
 	}
 	if !faults {
+		// one shard far beyond its limit (160 series against 100) next to two empty ones that must stay
+		// (min = max = 3): what has to leave it does not fit on a single other shard, so the moves of one cycle
+		// have to be spread; no workload events
+		o := loop.Opt{MaxHead: 0, MaxProc: 100, MaxShard: 3, MinShard: 3, IdleSec: 0}
+		four := []loop.T{tg(1, 40, 40, true), tg(2, 40, 40, true), tg(3, 40, 40, true), tg(4, 40, 40, true)}
+		out = append(out, &loop.Config{Name: "far-overloaded-shard/3-shards", Opt: o, Targets: four, Shards: []loop.Seed{{1: "", 2: "", 3: "", 4: ""}, {}, {}}, BudgetW: 0})
+	}
+	if !faults {
 		// an assigned target outgrows the limits (120 series against 100): the converged state has no target
 		// larger than a shard's limit assigned
 		o := loop.Opt{MaxHead: 0, MaxProc: 100, MaxShard: 4, MinShard: 0, IdleSec: 0}
